@@ -37,7 +37,11 @@ def gen_cases(ctx):
                "temp": rng.choice([0, 29, 28, -1, -525, 3210, -30000, 30000, 1, 99, 101,
                                    rng.randrange(-30000, 30001)]),
                "url": rng.choice(["http://www.google.com", "https://null.com/", "https://a.org/x",
-                                  "http://b.info", "https://www.c.net/q"]),
+                                  "http://b.info", "https://www.c.net/q",
+                                  # several (different / equal) expansion codes in one URL
+                                  "http://a.com/b.org", "https://www.x.org/y.net", "http://t.info/a.biz/",
+                                  "https://a.gov/?u=b.edu", "http://a.com/b.com/", "https://x.net.org.edu",
+                                  "http://www.a.biz.gov/", "https://q.info/.com"]),
                "txp": rng.choice([-25, 0, 20, -100, 127, -128]),
                "raw_len": rng.randrange(1, 10), "queue": rng.choice([1, 1, 2, 3]) if svc != "url" else rng.choice([2, 3]),
                "seed": rng.getrandbits(30)}
@@ -150,7 +154,19 @@ def run_case(ctx, case):
             nbits = (2 + 6 + sum(2 + len(d) for _, d in ads) + 3) * 8
             flips = list(range(nbits)) if ctx.tier == "thorough" or True else []
             rng.shuffle(flips)
-            for f in flips[: (nbits if ctx.tier == "thorough" else 40)]:
+            for fi, f in enumerate(flips[: (nbits if ctx.tier == "thorough" else 40)]):
+                if fi % 4 == 0:
+                    # the receiver has just accepted the undamaged packet (a damaged repeat of a
+                    # packet it knows is the realistic case)
+                    rr.rx_fifo.clear()
+                    rr.inject_rx(0, bytes(good))
+                    av, exc = safe_available()
+                    ctx.clause("valid_before_corrupted")
+                    if exc is not None or len(rx.rx_queue) != 1:
+                        ctx.violation("valid-packet-count/ref", "the undamaged packet was not queued before its "
+                                      "damaged repeats (available() -> %r, %r; queue %d)" % (av, exc, len(rx.rx_queue)), case)
+                        return
+                    del rx.rx_queue[:]
                 bad = bytearray(good)
                 bad[f // 8] ^= 1 << (f % 8)
                 if rng.random() < 0.3:
